@@ -30,6 +30,7 @@ Theorem C17_active_backend_regenerated : forall dk p r v c a,
   src_get_active_backend dk p r v c = active_backend_dk dk p r c /\
   parallel_init_src dk a c = parallel_init_dk dk a c.
 Proof. intros. split; [apply src_active_backend_eq | apply parallel_init_src_eq_dk]. Qed.
+Print Assumptions C17_active_backend_regenerated.
 
 (* what it returns: the configuration handed back is the THREAD'S OWN configuration, with n_jobs := 1 exactly when the
    thread fallback fires (never a copy of the defaults or of another dict); the backend is the context's / default one,
@@ -46,6 +47,7 @@ Theorem C17_active_backend_result : forall dk p r v c b ctx,
        else if force_processes explicit b0 prefer then {| ck := BLoky; clevel := clevel b0 |} else b0) /\
   clevel b = clevel b0.
 Proof. exact src_active_backend_spec. Qed.
+Print Assumptions C17_active_backend_result.
 
 (* the hints when no context names a backend, for every default class (incl. a thread-based default registered with
    register_parallel_backend(..., make_default=True), where prefer='processes' is the live branch) *)
@@ -58,6 +60,7 @@ Theorem C17_active_backend_hints : forall dk p r v c b ctx,
   (prefer = 2 -> uses_threads (ck b) = false \/ ck b = BLoky) /\
   (prefer = 0 -> require = 0 -> b = {| ck := dk; clevel := 0 |} /\ ctx = c).
 Proof. exact src_active_backend_hints. Qed.
+Print Assumptions C17_active_backend_hints.
 
 (* SCOPED.  Every program fragment p -- in particular every `with` block, whatever it contains: blocks at any depth,
    failing manager constructions, failing Parallel(...) calls, raise, try/except -- started by thread t with
